@@ -593,12 +593,85 @@ func c35CertShapes() *explore.Scenario {
 	}
 }
 
+// c35ResumedSuite: "a session resumed through a forged ClientSessionState carries exactly the supplied
+// version, suite and master secret" — also when the server, on resuming, answers with ANOTHER suite the
+// client offers (it rewrote the suite in its own ticket state): the client must not go on under a suite
+// the supplied state does not name.
+func c35ResumedSuite() *explore.Scenario {
+	others := []uint16{0, tls.TLS_ECDHE_ECDSA_WITH_AES_256_GCM_SHA384, tls.TLS_ECDHE_ECDSA_WITH_CHACHA20_POLY1305, tls.TLS_ECDHE_RSA_WITH_AES_128_GCM_SHA256, tls.TLS_RSA_WITH_AES_128_GCM_SHA256}
+	return &explore.Scenario{
+		Name: "forged-session-resumed-under-another-suite",
+		Run: func(x *explore.X) (r explore.Result) {
+			other := others[x.Choose("server-resumes-with-suite", len(others))]
+			via := x.Choose("via", 2) // 0 SetSessionState(forged), 1 the session cache
+			m12, _ := c20Prepare("a.example")
+			if !m12.available {
+				r.Violate("INFRA|c35-material", "no TLS 1.2 session material")
+				return
+			}
+			what := fmt.Sprintf("forged state (suite %04x) via=%d, the server resumes it with suite %04x", m12.css.CipherSuite(), via, other)
+			ccfg := peer.ClientConfig("a.example")
+			ccfg.ClientSessionCache = tls.NewLRUClientSessionCache(4)
+			f := tls.MakeClientSessionState(m12.css.SessionTicket(), m12.css.Vers(), m12.css.CipherSuite(), m12.css.MasterSecret(), m12.css.ServerCertificates(), m12.css.VerifiedChains())
+			f.SetEMS(m12.css.EMS())
+			if via == 1 {
+				ccfg.ClientSessionCache.Put("a.example", f)
+			}
+			scfg := peer.ServerConfig()
+			scfg.MaxVersion = tls.VersionTLS12
+			if other != 0 {
+				inner := scfg.Clone()
+				scfg.UnwrapSession = func(identity []byte, cs tls.ConnectionState) (*tls.SessionState, error) {
+					ss, err := inner.DecryptTicket(identity, cs)
+					if err == nil && ss != nil {
+						tls.VerifSetSessionSuite(ss, other)
+					}
+					return ss, err
+				}
+			}
+			byName := map[string]tls.ClientHelloID{}
+			for _, n := range AllIDs() {
+				byName[n.Name] = n.ID
+			}
+			hs := peer.Run(ccfg, byName["HelloChrome_100"], scfg, peer.Opts{Echo: true, Prepare: func(u *tls.UConn) error {
+				if via == 0 {
+					return u.SetSessionState(f)
+				}
+				return nil
+			}})
+			r.Nontrivial = true
+			r.Class = what
+			if hs.CPanic != "" {
+				r.Violate("C35|forged-resumed|panic", "%s: %s", what, truncStr(hs.CPanic, 300))
+				return
+			}
+			cs := hs.U.ConnectionState()
+			if hs.CErr == nil && cs.DidResume {
+				r.Count("forged_sessions_resumed", 1)
+				if cs.CipherSuite != f.CipherSuite() {
+					r.Violate("C35|forged-resumed|other-suite", "%s: the connection resumed and runs suite %04x", what, cs.CipherSuite)
+				}
+				if cs.Version != f.Vers() {
+					r.Violate("C35|forged-resumed|other-version", "%s: the connection resumed at version %04x", what, cs.Version)
+				}
+				if !hs.EchoOK {
+					r.Violate("C35|forged-resumed|no-data", "%s: resumed, but the echo failed: %v", what, hs.EchoErr)
+				}
+			} else if other == 0 {
+				r.Violate("C35|forged-resumed|honest-server-not-resumed", "%s: client %v / server %v, DidResume=%v", what, hs.CErr, hs.SErr, cs.DidResume)
+			}
+			r.Obs = fmt.Sprintf("resumed=%v|err=%s", cs.DidResume, errClass(hs.CErr))
+			return
+		},
+	}
+}
+
 func c35Scenarios(thorough bool) []*explore.Scenario {
 	d := 3
 	if thorough {
 		d = 5
 	}
-	return []*explore.Scenario{c35RoundTrip(thorough), c35Rotation(d), c35KeyDerivation(), c35Forged(), c35Clones(), c35IssuedByHandshakes(), c35CertShapes()}
+	return []*explore.Scenario{c35RoundTrip(thorough), c35Rotation(d), c35KeyDerivation(), c35Forged(), c35Clones(), c35IssuedByHandshakes(), c35CertShapes(), c35ResumedSuite()}
 }
 
 func init() {
